@@ -490,6 +490,12 @@ C02_Gate ==
     (Done /\ result = "Success") => Cardinality({d \in Dels : NsValid(loc[d])}) >= Thr
 C02_FewImpliesFailure ==
     (Done /\ Cardinality({d \in Dels : CouldBeValid(d)}) < Thr) => (result # "Success" /\ loc = loc0)
+\* The threshold is about THIS fetch ("one fewer when the local node is itself a delegate": its own
+\* namespace is not fetched): delegates the serving peer does not offer with valid signed refs do not
+\* count, however valid their stored copy is.
+OfferedValid(d) == Offered(d) # NoSig /\ ~BadOffer(d)
+C02_FewOfferedImpliesFailure ==
+    (Done /\ ~sc.useRefsAt /\ Cardinality({d \in Dels : OfferedValid(d)}) < Thr) => result # "Success"
 C02_FailedUnchanged == (Done /\ result = "Failed") => loc = loc0
 \* Errors before the application stage leave storage unchanged as well.
 ErrorBeforeApplyUnchanged == (Done /\ result = "Error" /\ err # "NonFF") => loc = loc0
